@@ -590,6 +590,55 @@ def _nontrivial(case, obs):
     return nd >= 2 and ne >= 2
 
 
+def failing_subscriber_probe():
+    """Implementation-only probe: a consumer subscribed to the LiveDispatcher fails on ONE event (the caller tolerates it,
+    as the RunEngine does with ignore_callback_exceptions); the consumer subscribed before it has received every event,
+    and what it received is still a valid run: seq_num 1..N per stream, RunStop.num_events = events emitted"""
+    from bluesky.callbacks.stream import LiveDispatcher
+    from event_model import compose_run
+
+    bad = []
+    for n_events in (3, 6):
+        for fail_at in range(1, n_events + 1):
+            ld = LiveDispatcher()
+            got = []
+            ld.subscribe(lambda name, doc: got.append((name, doc)))
+            state = {"n": 0}
+
+            def flaky(name, doc, state=state, fail_at=fail_at):
+                if name == "event":
+                    state["n"] += 1
+                    if state["n"] == fail_at:
+                        raise RuntimeError("one-off failure in a downstream consumer")
+
+            ld.subscribe(flaky)
+            run = compose_run()
+            docs = [("start", run.start_doc)]
+            d = run.compose_descriptor(name="primary", data_keys={"x": {"source": "s", "dtype": "number", "shape": []}})
+            docs.append(("descriptor", d.descriptor_doc))
+            for i in range(n_events):
+                docs.append(("event", d.compose_event(data={"x": i}, timestamps={"x": float(i)})))
+            docs.append(("stop", run.compose_stop()))
+            for name, doc in docs:
+                try:
+                    ld(name, doc)
+                except RuntimeError:
+                    pass
+            desc = {dd["uid"]: dd["name"] for nn, dd in got if nn == "descriptor"}
+            seqs = {}
+            for nn, dd in got:
+                if nn == "event":
+                    seqs.setdefault(desc.get(dd["descriptor"]), []).append(dd["seq_num"])
+            stops = [dd for nn, dd in got if nn == "stop"]
+            case = {"probe": "failing-subscriber", "events": n_events, "fails_at_event": fail_at}
+            for st, nums in seqs.items():
+                if nums != list(range(1, len(nums) + 1)):
+                    bad.append(("failing-subscriber:seq_nums-not-1..N", f"{n_events} events, a later subscriber raised on event {fail_at}: the first subscriber received seq_nums {nums} in stream {st!r}", case))
+            if len(stops) != 1 or stops[0].get("num_events") != {k: len(v) for k, v in seqs.items()}:
+                bad.append(("failing-subscriber:num_events-differs-from-events-emitted", f"{n_events} events, failure at event {fail_at}: RunStop.num_events = {stops[0].get('num_events') if stops else None}, events received per stream {{k: len(v) for k, v in seqs.items()}}".replace("{k: len(v) for k, v in seqs.items()}", str({k: len(v) for k, v in seqs.items()})), case))
+    return bad
+
+
 def run(ctx, model=True):
     res = C.Result(
         rule="cases = corpus + every scripted call sequence up to a small length (2 streams x 2 key sets x 2 id_args, with and "
@@ -627,6 +676,9 @@ def run(ctx, model=True):
             res.samples.append({"case": cases[i], "impl": obss[i], "model": json.loads(replies[i])})
     else:
         res.samples.append({"case": cases[-1], "impl": obss[-1]})
+    res.count("impl-only-probe:failing-subscriber", 1)
+    for sig, what, case in failing_subscriber_probe():
+        res.violations.append(C.Violation(sig, "implementation-only probe: " + what, case))
     return res
 
 
@@ -635,6 +687,11 @@ def run_impl_only(ctx):
 
 
 def replay(ctx, data):
+    if (data.get("case") or {}).get("probe") == "failing-subscriber":
+        res = C.Result()
+        for sig, what, case in failing_subscriber_probe():
+            res.violations.append(C.Violation(sig, what, case))
+        return res
     res = C.Result()
     case = data.get("case")
     if not case:
